@@ -33,6 +33,8 @@ CONSTANTS Mode,     \* "c03": all storage combinations; "c09": operands of the r
           SimN,
           ZeroVar,  \* TRUE: operand a ranges over {0, zero-valued VARIABLE, 1}: an element <<0, d>> with d # 0
                     \* (value zero, derivative not: not a zero of a magic element type; the symbol 9 stands for it)
+          Special,  \* TRUE: the run enumerates SPECIAL operands only (C09): +-Inf, NaN, -0 in float/magic containers and
+                    \* scalars, the bounds MinIntN/MaxIntN of the integer types, base 0 of Pow at derivative orders 1 and 2
           Part,     \* "all", or one group of operation families: "vec" | "mat" | "prod" (to split large runs)
           Emit      \* print the cases
 
@@ -230,6 +232,130 @@ ScalarCases ==
 \cup {SCase("LogSub", p, xy[1], xy[2], SExp("term", 0, 0, FALSE, <<"log", <<"sub", <<"exp", X>>, <<"exp", Y>>>>>>)) :
         p \in P, xy \in {q \in SGrid \X SGrid : q[2] < q[1]}}
 
+(***************************************************************************)
+(* SPECIAL OPERANDS (Special = TRUE, C09).  Container elements and scalar  *)
+(* operands are extended elements <<v, 0, f>> of Containers.tla (IEEE      *)
+(* classes); the demanded class of every result element comes from the     *)
+(* class algebra XAdd/XMul/... (0 * Inf = NaN, Inf - Inf = NaN, x / 0 ...). *)
+(* Records carry sp = "fs" (float specials: instantiated for the floating  *)
+(* point and magic element types) or sp = "ib" (integer bounds: integer    *)
+(* types).  Operand records hold the finite values in c and the classes in *)
+(* f.                                                                      *)
+(***************************************************************************)
+XA  == {XFin(0), XFin(1), XInf}                    \* operand a
+XBe == {XFin(0), XFin(-1), XNInf, XNaN}            \* operand b, element-wise families
+XBp == {XFin(0), XNInf, XNaN}                      \* operand b, products: a zero meets an Inf/NaN
+XSs == {XFin(0), XFin(-1), XInf, XNaN, XNZero}     \* scalar operand of the broadcast families
+XNonZero(xc) == {i \in 1..Len(xc) : xc[i][3] \in {1, 2, 3} \/ xc[i][1] # 0}
+XStored(k, xc) == IF k \in {"d", "z"} THEN 1..Len(xc) ELSE XNonZero(xc)
+XKinds(r, xc) == LET ks == {"d", "s"} \cup (IF XNonZero(xc) # 1..Len(xc) THEN {"z"} ELSE {})
+                 IN IF Mode = "c03" \/ r.k = "-" THEN ks ELSE {k \in ks : IsSparse(k) = IsSparse(r.k)}
+OpdX(r, rows, cols, xc) ==
+  [rows |-> rows, cols |-> cols, c |-> SeqOf(Len(xc), LAMBDA i : <<xc[i][1], 0>>), f |-> SeqOf(Len(xc), LAMBDA i : xc[i][3]),
+   reps |-> [k \in XKinds(r, xc) |-> XStored(k, xc)]]
+NoOpdX == [rows |-> 0, cols |-> -1, c |-> <<>>, f |-> <<>>, reps |-> [k \in {"-"} |-> {}]]
+CaseX(op, r, a, b, xa, xb, xs, dims) ==
+  [op |-> op, sp |-> "fs", r |-> r, a |-> a, b |-> b, s |-> <<xs[1], 0>>, sf |-> xs[3], dims |-> dims,
+   exp |-> Exp(IF op = "VdotV" THEN "s" ELSE "c", XResult(op, xa, xb, xs, dims), FALSE)]
+
+SpecialFamilies ==
+     {Fam(op, n, -1, 0) : op \in {"VaddV", "VsubV", "VmulV", "VdivV", "VaddS", "VsubS", "VmulS", "VdivS", "Set", "VdotV"}, n \in 1..2}
+\cup {Fam(op, sh[1], sh[2], 0) : op \in {"MaddM", "MsubM", "MmulM", "MdivM", "MaddS", "MsubS", "MmulS", "MdivS", "Set"},
+                                 sh \in {<<1, 1>>, <<1, 2>>, <<2, 1>>}}
+\cup {Fam(op, sh[1], -1, sh[2]) : op \in {"MdotV", "VdotM"}, sh \in {<<1, 2>>, <<2, 1>>, <<2, 2>>}}
+\cup {Fam("Outer", sh[1], sh[2], 0) : sh \in {<<1, 2>>, <<2, 1>>, <<2, 2>>}}
+\cup {Fam("MdotM", q[1][1], q[1][2], q[2]) : q \in {<<1, 2>>, <<2, 1>>, <<2, 2>>} \X {1, 2}}
+
+ForSpecial(f, r, P(_)) ==
+  LET n    == Len2(f.rows, f.cols)
+      dims == <<f.rows, f.cols, f.inner>>
+      O(rows, cols, xc) == OpdX(r, rows, cols, xc)
+  IN
+  CASE f.op \in {"VaddV", "VsubV", "VmulV", "VdivV", "MaddM", "MsubM", "MmulM", "MdivM"} ->
+         \E x \in Tuples(n, XA) : \E y \in Tuples(n, XBe) :
+            P(CaseX(f.op, r, O(f.rows, f.cols, x), O(f.rows, f.cols, y), x, y, XFin(0), dims))
+    [] f.op \in {"VaddS", "VsubS", "VmulS", "VdivS", "MaddS", "MsubS", "MmulS", "MdivS"} ->
+         \E x \in Tuples(n, XA \cup {XNaN}) : \E sv \in XSs :
+            P(CaseX(f.op, r, O(f.rows, f.cols, x), NoOpdX, x, <<>>, sv, dims))
+    [] f.op = "Set" ->
+         \E x \in Tuples(n, XA \cup {XNaN, XNInf}) : P(CaseX(f.op, r, O(f.rows, f.cols, x), NoOpdX, x, <<>>, XFin(0), dims))
+    [] f.op = "VdotV" ->
+         \E x \in Tuples(n, XA) : \E y \in Tuples(n, XBe) :
+            P(CaseX(f.op, None, O(n, -1, x), O(n, -1, y), x, y, XFin(0), dims))
+    [] f.op = "MdotV" ->
+         \E x \in Tuples(f.rows * f.inner, XA) : \E y \in Tuples(f.inner, XBp) :
+            P(CaseX(f.op, r, O(f.rows, f.inner, x), O(f.inner, -1, y), x, y, XFin(0), dims))
+    [] f.op = "VdotM" ->
+         \E x \in Tuples(f.inner, XA) : \E y \in Tuples(f.inner * f.rows, XBp) :
+            P(CaseX(f.op, r, O(f.inner, -1, x), O(f.inner, f.rows, y), x, y, XFin(0), dims))
+    [] f.op = "MdotM" ->
+         \E x \in Tuples(f.rows * f.inner, XA) : \E y \in Tuples(f.inner * f.cols, XBp) :
+            P(CaseX(f.op, r, O(f.rows, f.inner, x), O(f.inner, f.cols, y), x, y, XFin(0), dims))
+    [] f.op = "Outer" ->
+         \E x \in Tuples(f.rows, XA) : \E y \in Tuples(f.cols, XBe) :
+            P(CaseX(f.op, r, O(f.rows, -1, x), O(f.cols, -1, y), x, y, XFin(0), dims))
+
+(* ---- special scalar operands of the floating point and magic types ---- *)
+XS == {XNInf, XFin(-1), XNZero, XFin(0), XFin(1), XFin(2), XInf, XNaN}
+\* expectation: "x" an extended element (class from the IEEE algebra), "b" boolean, "i" integer, "term" the meaning
+\* evaluated with Go math (IEEE), "any" only generic = concrete
+XExp(t, e, bb, term) == [t |-> t, v |-> e[1], f |-> e[3], b |-> bb, term |-> term]
+XCase(op, x, y, xo, yo, e) == [op |-> op, sp |-> "fs", p |-> 3, xx |-> x, yy |-> y, xo |-> xo, yo |-> yo, sexp |-> e]
+DivOK(x, y) == ~(XIsFin(x) /\ XIsFin(y)) \/ y[1] = 0 \/ x[1] % (IF y[1] < 0 THEN -y[1] ELSE y[1]) = 0
+XMinMax(x, y, isMin) == IF XIsNaN(x) \/ XIsNaN(y) THEN XAny
+                        ELSE IF isMin THEN (IF XLess(x, y) THEN x ELSE y) ELSE (IF XLess(y, x) THEN x ELSE y)
+Plain(e) == IF e[3] = 4 THEN XFin(0) ELSE e         \* the sign of a zero result is not demanded
+XEq(x, y) == IF XIsInf(x) \/ XIsInf(y) THEN x[3] = y[3] ELSE x[1] = y[1]
+Orders == {<<2, 2>>, <<1, 0>>, <<2, 0>>, <<1, 1>>, <<0, 2>>}   \* derivative orders of (x, y) for the magic types
+SpecialScalarCases ==
+     {XCase("Add", x, y, 2, 2, XExp("x", XAdd(x, y), FALSE, <<>>)) : x \in XS, y \in XS}
+\cup {XCase("Sub", x, y, 2, 2, XExp("x", XSub(x, y), FALSE, <<>>)) : x \in XS, y \in XS}
+\cup {XCase("Mul", x, y, o[1], o[2], XExp("x", XMul(x, y), FALSE, <<>>)) : x \in XS, y \in XS, o \in {<<2, 2>>, <<1, 0>>, <<0, 2>>}}
+\cup {XCase("Div", xy[1], xy[2], 2, 2, XExp("x", XDiv(xy[1], xy[2]), FALSE, <<>>)) : xy \in {q \in XS \X XS : DivOK(q[1], q[2])}}
+\cup {XCase("Neg", x, XFin(0), 2, 2, XExp("x", XNeg(x), FALSE, <<>>)) : x \in XS}
+\cup {XCase("Abs", x, XFin(0), 2, 2, XExp("x", XAbs(x), FALSE, <<>>)) : x \in XS}
+\cup {XCase("Set", x, XFin(0), 2, 2, XExp("x", Plain(x), FALSE, <<>>)) : x \in XS}
+\cup {XCase("Min", x, y, 2, 2, XExp("x", Plain(XMinMax(x, y, TRUE)), FALSE, <<>>)) : x \in XS, y \in XS}
+\cup {XCase("Max", x, y, 2, 2, XExp("x", Plain(XMinMax(x, y, FALSE)), FALSE, <<>>)) : x \in XS, y \in XS}
+\cup {XCase("Sign", x, XFin(0), 2, 2, IF XIsNaN(x) THEN XExp("any", XAny, FALSE, <<>>) ELSE XExp("i", XFin(XSgn(x)), FALSE, <<>>)) : x \in XS}
+\cup {XCase("Greater", x, y, 2, 2, XExp("b", XFin(0), XLess(y, x), <<>>)) : x \in XS, y \in XS}
+\cup {XCase("Smaller", x, y, 2, 2, XExp("b", XFin(0), XLess(x, y), <<>>)) : x \in XS, y \in XS}
+\cup {XCase("Equals", x, y, 2, 2, IF XIsNaN(x) \/ XIsNaN(y) THEN XExp("any", XAny, FALSE, <<>>)
+                                  ELSE XExp("b", XFin(0), XEq(x, y), <<>>)) : x \in XS, y \in XS}
+\cup {XCase("Exp", x, XFin(0), o, 0, XExp("term", XAny, FALSE, <<"exp", X>>)) : x \in XS, o \in {1, 2}}
+\cup {XCase("Log", x, XFin(0), o, 0, XExp("term", XAny, FALSE, <<"log", X>>)) : x \in XS, o \in {1, 2}}
+\cup {XCase("Log1p", x, XFin(0), o, 0, XExp("term", XAny, FALSE, <<"log", <<"add", <<"one">>, X>>>>)) : x \in XS, o \in {1, 2}}
+\cup {XCase("Sqrt", x, XFin(0), o, 0, XExp("term", XAny, FALSE, <<"sqrt", X>>)) : x \in XS, o \in {1, 2}}
+\cup {XCase("Pow", x, y, o[1], o[2], XExp("term", XAny, FALSE, <<"pow", X, Y>>)) : x \in XS, y \in XS, o \in Orders}
+\cup {XCase("LogAdd", x, y, 2, 2, XExp("term", XAny, FALSE, <<"log", <<"add", <<"exp", X>>, <<"exp", Y>>>>>>)) : x \in XS, y \in XS}
+\cup {XCase("LogSub", x, y, 2, 2, XExp("term", XAny, FALSE, <<"log", <<"sub", <<"exp", X>>, <<"exp", Y>>>>>>)) : x \in XS, y \in XS}
+
+(* ---- bounds of the integer types: two's complement wrap-around ---------- *)
+\* a value is written relative to MinIntN, 0 or MaxIntN: [b |-> "min" | "zero" | "max", o |-> offset]; the
+\* arithmetic is carried out for N = 8 and must give the same symbolic result for N = 16 (width independent)
+Sym(b, o) == [b |-> b, o |-> o]
+ISyms == {Sym("min", 0), Sym("min", 1), Sym("zero", -1), Sym("zero", 0), Sym("zero", 1), Sym("zero", 2), Sym("max", -1), Sym("max", 0)}
+SymVal(s, M) == CASE s.b = "min" -> s.o - M [] s.b = "max" -> M - 1 + s.o [] OTHER -> s.o
+Wrap(x, M)   == ((x + M) % (2 * M)) - M
+ToSym(r, M)  == IF r >= M \div 2 THEN Sym("max", r - (M - 1)) ELSE IF r < -(M \div 2) THEN Sym("min", r + M) ELSE Sym("zero", r)
+IntOp(op, x, y) ==
+  CASE op = "Add" -> x + y [] op = "Sub" -> x - y [] op = "Mul" -> x * y [] op = "Neg" -> -x
+    [] op = "Abs" -> (IF x < 0 THEN -x ELSE x) [] op = "Min" -> SMin(x, y) [] op = "Max" -> SMax(x, y) [] op = "Set" -> x
+    [] op = "Div" -> (IF y = 1 THEN x ELSE -x)           \* only divisors 1 and -1 (MinIntN / -1 wraps)
+IntAt(op, xs, ys, M) == ToSym(Wrap(IntOp(op, SymVal(xs, M), SymVal(ys, M)), M), M)
+IntRes(op, xs, ys) == LET r == IntAt(op, xs, ys, 128) IN
+                      IF Assert(r = IntAt(op, xs, ys, 32768), <<"wrap-around result depends on the width", op, xs, ys>>) THEN r ELSE r
+IExp(t, sym, bb, v) == [t |-> t, sym |-> sym, b |-> bb, v |-> v]
+ICase(op, x, y, e) == [op |-> op, sp |-> "ib", p |-> 3, xb |-> x, yb |-> y, sexp |-> e]
+IntBoundCases ==
+     {ICase(op, x, y, IExp("sym", IntRes(op, x, y), FALSE, 0)) : op \in {"Add", "Sub", "Mul", "Min", "Max"}, x \in ISyms, y \in ISyms}
+\cup {ICase(op, x, Sym("zero", 0), IExp("sym", IntRes(op, x, Sym("zero", 0)), FALSE, 0)) : op \in {"Neg", "Abs", "Set"}, x \in ISyms}
+\cup {ICase("Div", x, y, IExp("sym", IntRes("Div", x, y), FALSE, 0)) : x \in ISyms, y \in {Sym("zero", 1), Sym("zero", -1)}}
+\cup {ICase("Sign", x, Sym("zero", 0), IExp("i", x, FALSE, SSign(SymVal(x, 128)))) : x \in ISyms}
+\cup {ICase("Equals", x, y, IExp("b", x, x = y, 0)) : x \in ISyms, y \in ISyms}
+\cup {ICase("Greater", x, y, IExp("b", x, SymVal(x, 128) > SymVal(y, 128), 0)) : x \in ISyms, y \in ISyms}
+\cup {ICase("Smaller", x, y, IExp("b", x, SymVal(x, 128) < SymVal(y, 128), 0)) : x \in ISyms, y \in ISyms}
+
 (* ---- simulation: random contents beyond the exhaustive bounds ---------- *)
 RV(n, D) == SeqOf(n, LAMBDA i : RandomElement(D))
 V5 == -2..2
@@ -277,7 +403,7 @@ Init == ph = "start" /\ fam = NoFam /\ rcv = None /\ c = NoCase /\ rx = <<>> /\ 
 
 PickFamily ==
   /\ ph = "start"
-  /\ fam' \in (IF Sim THEN SimFamilies ELSE Families)
+  /\ fam' \in (IF Sim THEN SimFamilies ELSE IF Special THEN SpecialFamilies ELSE Families)
   /\ ph' = "family" /\ UNCHANGED <<rcv, c, rx, ry>>
 
 PickReceiver ==
@@ -291,12 +417,12 @@ Put(k) == /\ c' = k
 
 EmitCase ==
   /\ ph = "receiver"
-  /\ IF Sim THEN ForSim(fam, rcv, rx, ry, Put) ELSE ForCases(fam, rcv, Put)
+  /\ IF Sim THEN ForSim(fam, rcv, rx, ry, Put) ELSE IF Special THEN ForSpecial(fam, rcv, Put) ELSE ForCases(fam, rcv, Put)
   /\ ph' = "case" /\ UNCHANGED <<fam, rcv, rx, ry>>
 
 EmitScalar ==
   /\ ph = "start" /\ Mode = "c09" /\ ~Sim
-  /\ \E k \in ScalarCases : Put(k)
+  /\ \E k \in (IF Special THEN SpecialScalarCases \cup IntBoundCases ELSE ScalarCases) : Put(k)
   /\ ph' = "case" /\ UNCHANGED <<fam, rcv, rx, ry>>
 
 Next == PickFamily \/ PickReceiver \/ EmitCase \/ EmitScalar
